@@ -199,7 +199,72 @@ def family_alloc(m, tier, add_bench, open_mod, close_mod):
     close_mod(m, 0)
 
 
+# Features of a benchmark item; every unordered compatible pair is generated once (and, in the
+# thorough tier, every compatible triple that contains a group feature).
+PAIR_FEATURES = {
+    # name: (exclusive class, kwargs updates, extra options, enclosing group or None)
+    "args_int": ("args", {"args": "arr_i32_big"}, [], None),
+    "args_str": ("args", {"args": "string_arr"}, [], None),
+    "types": ("types", {"types": ["TB", "TA"]}, [], None),
+    "consts": ("consts", {"consts": [10, 9, 2]}, [], None),
+    "ign_opt": ("ignore", {}, [("ignore", None)], None),
+    "ign_attr": ("ignore", {"ignore_attr": True}, [], None),
+    "ign_false": ("ignore", {}, [("ignore", "false")], None),
+    "in_ign_group": ("group", {}, [], {"options": [("ignore", None)]}),
+    "in_named_group": ("group", {}, [], {"display": "shown g"}),
+    "in_opts_group": ("group", {}, [], {"options": [("sample_size", "2"), ("bytes_count", "5u32"), ("threads", "[1, 2]")]}),
+    "threads": ("threads", {}, [("threads", "[2, 1]")], None),
+    "threads0": ("threads", {}, [("threads", "[0, 1]")], None),
+    "counter": ("counter", {}, [("items_count", "3u32")], None),
+    "name": ("name", {"name": "Custom Shown"}, [], None),
+    "raw": ("raw", {"raw_name": "r#match"}, [], None),
+    "bencher": ("form", {"form": "bencher"}, [], None),
+    "values": ("form", {"form": "bencher", "bencher_style": "values"}, [], None),
+    "local": ("form", {"form": "bencher", "bencher_style": "bench_local"}, [], None),
+    "bcounter": ("form", {"form": "bencher", "bencher_style": "counter"}, [], None),
+    "sample_opts": ("samples", {}, [("sample_count", "2"), ("sample_size", "3")], None),
+    "extern": ("extern", {"extern": "C"}, [], None),
+}
+
+
+def family_pairs(m, tier, add_bench, open_mod, close_mod):
+    """Every compatible pair of item features on one benchmark (interaction coverage for C12-C17, C20)."""
+    import itertools
+    top = "pw"
+    m.families[top] = "pairs"
+    path = open_mod(m, [], 0, top)
+    names = list(PAIR_FEATURES)
+    combos = [c for c in itertools.combinations(names, 2)]
+    if tier == "thorough":
+        combos += [c for c in itertools.combinations(names, 3) if any(PAIR_FEATURES[f][0] == "group" for f in c)]
+    k = 0
+    for combo in combos:
+        classes = [PAIR_FEATURES[f][0] for f in combo]
+        if len(set(classes)) != len(classes):
+            continue
+        if "extern" in combo and any(PAIR_FEATURES[f][0] in ("args", "form") for f in combo):
+            continue
+        k += 1
+        kwargs, options, group = {"raw_name": "b"}, [], None
+        for f in combo:
+            _, kw, opts, grp = PAIR_FEATURES[f]
+            kwargs.update(kw)
+            options += opts
+            group = grp if grp is not None else group
+        p1 = open_mod(m, path, 4, "p%03d_%s" % (k, "_".join(combo)))
+        indent = 8
+        if group is not None:
+            p1 = open_mod(m, p1, 8, "g", group=group)
+            indent = 12
+        add_bench(m, p1, indent, options=options, cost=1000 + 97 * (k % 13), **kwargs)
+        if group is not None:
+            close_mod(m, 8)
+        close_mod(m, 4)
+    close_mod(m, 0)
+
+
 def more_families(m, tier, add_bench, open_mod, close_mod):
+    family_pairs(m, tier, add_bench, open_mod, close_mod)
     family_alloc(m, tier, add_bench, open_mod, close_mod)
     family_shapes(m, tier, add_bench, open_mod, close_mod)
     family_sort(m, tier, add_bench, open_mod, close_mod)
